@@ -346,7 +346,15 @@ pub fn gen_project(idx: usize, seed: u64) -> Project {
             let k = if is_def && !it.contains("\n\nimpl ") { 0 } else { rng.below(nf) };
             parts[k].push(it);
         }
-        let fnames: &[&str] = if p == "Main" { &["main.gom", "n.gom", "z.gom"] } else { &["a.gom", "b.gom", "lib.gom"] };
+        // some packages have files whose names differ only in case: the documented order is the
+        // byte order of the names, whatever order the directory yields them in
+        let fnames: &[&str] = if p == "Main" {
+            &["main.gom", "n.gom", "z.gom"]
+        } else if idx % 3 == 1 {
+            &["Ops.gom", "ops.gom", "oPs.gom"]
+        } else {
+            &["a.gom", "b.gom", "lib.gom"]
+        };
         for (k, part) in parts.iter().enumerate() {
             let mut s = format!("package {p}\n");
             let mut my = imps.clone();
